@@ -19,7 +19,7 @@ def run(ctx):
     C = []
     ks = [31, 32, 17, 25, 39] if q else list(range(len(P.HOLES)))
     if not q:
-        C += PC.text_holes(ctx, own, ks, vis=(4,) if q else (0, 4, 8))
+        C += PC.text_holes(ctx, own, ks, vis=(4,), timeout=2400)
     C += PC.spell_holes(ctx, own, range(0, len(P.SPELL), 2) if q else range(len(P.SPELL)))
     C += PC.label_holes(ctx, own, [9, 0] + _pipe.pick(ctx, 1, len(P.SKELS)) if q else range(len(P.SKELS)),
                         vis=(4,) if q else (0, 4, 8))
